@@ -1,7 +1,7 @@
 //@ assume: BlockHeader / ShortId / Hash are abstract; BlockHeader::hash, TxKernel::short_id are uninterpreted functions (sp_hhash, sp_short_id); Output / TxKernel carry an abstract feature tag (OutKind: Plain|Coinbase; KernKind: Plain|Coinbase|HeightLocked|NoRecentDuplicate) read by is_coinbase / is_plain; `sort_unstable()` is abstract: the result is a permutation (sort_perm) -- that it is the canonical order, and that two canonical lists with equal multisets are the same list, is not decided; TransactionBody::init(.., verify_sorted=false) is abstract like Transaction::new in C12/aggregate (sorted permutations of its arguments)
 //@ assume: T5: `block.outputs().iter().filter(f).cloned().collect::<Vec<_>>()` => abstract OutSlice / OutIter stand-ins whose contracts say exactly: the collected vector is, in order, the elements for which f holds; the closure f is the REAL closure text, verified as a lifted function (T7). T6: `thread_rng().gen()` => rand_nonce() (any u64); `for k in block.kernels()` / `for tx in txs` => the verifier's `for x in it: slice.iter()` form; `.clone()` on kernels => clone_kern (equal copy); `inputs.into()` => inputs_from; `transaction::cut_through` => cut_through; `.sort_unstable()` => sort_perm; `let tx_inputs: Vec<_> = tx.inputs().into()` => inputs_of. T3: the trace! line is removed
 //@ assume: decided here (C12, third clause), for ANY block / any list of transactions: (a) CompactBlock::from(block) keeps the header, carries in full EXACTLY the coinbase outputs and the coinbase kernels of the block, and for every other kernel exactly its short id under (header hash, the block's nonce) -- none dropped, none doubled; (b) Block::hydrate_from(cb, txs) keeps cb's header and its body is, as multisets, inputs/outputs = the cut-through remainder of all the transactions' inputs/outputs (C12/cut_through contract) plus cb's full outputs, kernels = all the transactions' kernels plus cb's full kernels; it fails only if cut-through or body initialisation fails. Hence (lemma_roundtrip, proved) hydrating the compact form of a block from transactions that account for exactly its non-coinbase part gives back a block with the same header and the same multisets of inputs, outputs and kernels. NOT decided: that the short ids in cb select those transactions (that is the caller, in the pool/p2p adapter), the canonical ordering, Block::from_reward.
-//@ assumed_items: 17
+//@ assumed_items: 18
 //@ fns: CompactBlock::from, closure in CompactBlock::from, CompactBlockBody::init, CompactBlockBody::sort, Block::hydrate_from
 //@ include: ../C12/aggregate.verus.rs
 
@@ -79,11 +79,11 @@ pub open spec fn out_full_pred_spec(o: Output) -> bool { out_cb(o) }
 
 pub struct TransactionBody { pub ins: Ghost<Seq<CommitWrapper>>, pub outs: Vec<Output>, pub kerns: Vec<TxKernel> }
 impl TransactionBody {
-    /// TransactionBody::init(.., verify_sorted = false): sorts; the result holds permutations of the arguments
+    /// TransactionBody::init(.., verify_sorted = false): sorts and always succeeds (transaction.rs: `body.sort(); Ok(body)`); the result holds permutations of the arguments
     #[verifier::external_body]
     pub fn init(inputs: Inputs, outputs: &Vec<Output>, kernels: &Vec<TxKernel>, verify_sorted: bool) -> (r: Result<TransactionBody, Error>)
         requires !verify_sorted
-        ensures r matches Ok(b) ==> b.ins@.to_multiset() == inputs.commits().to_multiset() && b.outs@.to_multiset() == outputs@.to_multiset() && b.kerns@.to_multiset() == kernels@.to_multiset() { unimplemented!() }
+        ensures r.is_ok(), r matches Ok(b) ==> b.ins@.to_multiset() == inputs.commits().to_multiset() && b.outs@.to_multiset() == outputs@.to_multiset() && b.kerns@.to_multiset() == kernels@.to_multiset() { unimplemented!() }
 }
 pub struct Block { pub header: BlockHeader, pub body: TransactionBody }
 impl Block {
@@ -120,6 +120,10 @@ impl CompactBlock {
 //@ extract core/src/core/compact_block.rs :: impl CompactBlock::kern_full
 //@   ensures:
 //@+    r@ == self.body.kern_full@,
+//@ end
+//@ extract core/src/core/compact_block.rs :: impl CompactBlock::kern_ids
+//@   ensures:
+//@+    r@ == self.body.kern_ids@,
 //@ end
 //@ extract core/src/core/compact_block.rs :: impl From<Block> for CompactBlock::from
 //@   eclosure 1 replaced_by `OutFullPred {}`
@@ -158,9 +162,12 @@ proof fn lemma_filter_is_cb_outs(s: Seq<Output>)
 //@   ensures:
 //@+    r == out_full_pred_spec(**x),
 //@ end
+#[verifier::external_body]
+fn err_msg() -> String { unimplemented!() }
 impl Block {
 //@ extract core/src/core/block.rs :: impl Block::hydrate_from
 //@   strip_logs
+//@   format_as `err_msg()`
 //@   rewrite `let mut inputs = vec![];` => `let mut inputs: Vec<CommitWrapper> = Vec::new();`
 //@   rewrite `let mut outputs = vec![];` => `let mut outputs: Vec<Output> = Vec::new();`
 //@   rewrite `let mut kernels = vec![];` => `let mut kernels: Vec<TxKernel> = Vec::new();`
@@ -175,6 +182,9 @@ impl Block {
 //@+            #[trigger] decomposition(cat_ins(txs@, txs@.len() as int), cat_outs(txs@, txs@.len() as int), ki, ci, ko, co)
 //@+            && no_dup(ki) && no_dup(ko) && b.body.ins@.to_multiset() == ki.to_multiset()
 //@+            && b.body.outs@.to_multiset() == ko.to_multiset().add(cb.body.out_full@.to_multiset()),
+//@+    // 're-hydrated from those same transactions in ANY grouping': the only way to fail is a duplicate left after cut-through
+//@+    r.is_err() ==> exists|ki: Seq<CommitWrapper>, ci: Seq<CommitWrapper>, ko: Seq<Output>, co: Seq<Output>|
+//@+            #[trigger] decomposition(cat_ins(txs@, txs@.len() as int), cat_outs(txs@, txs@.len() as int), ki, ci, ko, co) && (!no_dup(ki) || !no_dup(ko)),
 //@   loop 1:
 //@+    invariant
 //@+        inputs@ == cat_ins(txs@, it.index@ as int), outputs@ == cat_outs(txs@, it.index@ as int), kernels@ == cat_kerns(txs@, it.index@ as int),
